@@ -6,7 +6,7 @@ PROP = dict(
           "directed cases (two consecutive outages each followed by a retry round; an outage across an add-field patch with writes of the new field) then PRNG-generated histories of 6-15 steps: creates and repeated updates on A, "
           "B going down and coming back, add-field patches applied to both nodes, rounds of A's replicator retry loop. The retry interval is set to one hour so that the loop's own ticker never acts; rounds are run through an "
           "overlay hook that treats every retry as due, and B's return clears A's dial back-offs (the passage of time). After every step A's bookkeeping in its peer store (retry record, retrying flag, documents owed, "
-          "replicator status) is read and compared with the model; at the end B is up, retry rounds have run, and B's documents must equal A's; a case is one history; distinct = distinct histories"),
+          "replicator status) is read and compared with the model; at the end B is up, retry rounds have run, and B's documents must equal A's; a case is one history; distinct = distinct histories; two directed cases retry documents written under a schema version that is no longer the active one"),
     assumptions=[
         "time is abstracted: 'the retry interval elapsed' and 'the dial back-off for B expired' are events the harness injects (hooks VerifRetryReplicators, VerifClearDialBackoff); the real loop runs the same functions on a 2 s ticker",
         "B is down or up between operations; B failing in the middle of receiving one push is not generated",
